@@ -5,6 +5,7 @@ import (
 	"flag"
 	"fmt"
 	"os"
+	"os/exec"
 	"path/filepath"
 	"runtime"
 	"sort"
@@ -445,7 +446,7 @@ func writeEvidence(def *CheckDef, tier string, seed int64, all []*sym.ExploreSta
 			"per_harness":                    perHarness,
 			"partially_initialised_packages": initSkips,
 			"engine_problems":                broken,
-			"solver":                         "z3 4.8.12 (-in, push/pop per path)",
+			"solver":                         solverDescription(),
 		},
 		"assumptions": def.Assumptions,
 		"wall_s":      wall.Seconds(),
@@ -455,3 +456,22 @@ func writeEvidence(def *CheckDef, tier string, seed int64, all []*sym.ExploreSta
 	os.MkdirAll(filepath.Join(verifDir, "evidence"), 0o755)
 	os.WriteFile(filepath.Join(verifDir, "evidence", def.ID+".json"), b, 0o644)
 }
+
+// solverDescription names the solver binary the engine actually talks to (VERIF_SOLVER, default
+// z3-new) with the version it reports.
+func solverDescription() string {
+	kind := os.Getenv("VERIF_SOLVER")
+	if kind == "" {
+		kind = "z3-new"
+	}
+	bin := kind
+	if kind == "cvc5" {
+		bin = "cvc5"
+	}
+	ver := "version unknown"
+	if out, err := exec.Command(bin, "--version").Output(); err == nil {
+		ver = strings.TrimSpace(strings.SplitN(string(out), "\n", 2)[0])
+	}
+	return fmt.Sprintf("%s: %s (one process per worker over a pipe, -in -smt2, push/pop per path)", kind, ver)
+}
+
